@@ -1,5 +1,10 @@
 package main
 
+import (
+	"go/ast"
+	"strings"
+)
+
 // Facts for C09: the modelled function is serialised by the limiter's mutex,
 // and the constants the filter uses as defaults.
 
@@ -13,6 +18,73 @@ func init() {
 		w.Line("def acquireLocksFirst : Bool := %s", Bool(r.LocksFirst(fd)))
 		w.Line("/-- number of `nowFunc()` reads inside `acquirePermission` (one clock read per decision). -/")
 		w.Line("def acquireClockReads : Nat := %d", r.CountCalls(fd.Body, "nowFunc"))
+
+		// MultiRateLimiter.AcquirePermission
+		md, err := r.Func("pkg/util/ratelimiter/multiratelimiter.go", "MultiRateLimiter", "AcquirePermission")
+		if err != nil {
+			return err
+		}
+		w.Line("def multiLocksFirst : Bool := %s", Bool(r.LocksFirst(md)))
+		w.Line("def multiClockReads : Nat := %d", r.CountCalls(md.Body, "nowFunc"))
+
+		// filter: createRateLimiter defaults, result / status of a rejection, reload's hand-over
+		const ff = "pkg/filters/ratelimiter/ratelimiter.go"
+		cf, err := r.Func(ff, "URLRule", "createRateLimiter")
+		if err != nil {
+			return err
+		}
+		var defaults []string
+		ast.Inspect(cf.Body, func(n ast.Node) bool {
+			as, ok := n.(*ast.AssignStmt)
+			if !ok || len(as.Lhs) != 1 || len(as.Rhs) != 1 {
+				return true
+			}
+			l, rr := r.Src(as.Lhs[0]), r.Src(as.Rhs[0])
+			if strings.HasPrefix(l, "policy.") && !strings.Contains(rr, "(") {
+				defaults = append(defaults, l+" = "+rr)
+			}
+			return true
+		})
+		w.Line("/-- literal defaults assigned in `createRateLimiter` -/")
+		w.Line("def createDefaults : List String := %s", StrList(defaults))
+		v, err := r.PkgValue(ff, "resultRateLimited")
+		if err != nil {
+			return err
+		}
+		w.Line("def resultRateLimited : String := %s", r.Src(v))
+		hf, err := r.Func(ff, "RateLimiter", "Handle")
+		if err != nil {
+			return err
+		}
+		w.Line("def handleAcquireCalls : Nat := %d", r.CountCalls(hf.Body, "u.rl.AcquirePermission"))
+		w.Line("def handleSetsTooManyRequests : Nat := %d", r.CountCalls(hf.Body, "resp.SetStatusCode"))
+		codes := []string{}
+		ast.Inspect(hf.Body, func(n ast.Node) bool {
+			if ce, ok := n.(*ast.CallExpr); ok && r.Src(ce.Fun) == "resp.SetStatusCode" && len(ce.Args) == 1 {
+				codes = append(codes, r.Src(ce.Args[0]))
+			}
+			return true
+		})
+		w.Line("def handleStatusCodes : List String := %s", StrList(codes))
+		rf, err := r.Func(ff, "RateLimiter", "reload")
+		if err != nil {
+			return err
+		}
+		nils, shares := 0, 0
+		ast.Inspect(rf.Body, func(n ast.Node) bool {
+			if as, ok := n.(*ast.AssignStmt); ok {
+				switch r.Src(as) {
+				case "prev.rl = nil":
+					nils++
+				case "url.rl = prev.rl":
+					shares++
+				}
+			}
+			return true
+		})
+		w.Line("/-- `reload`: `url.rl = prev.rl` occurs once and the previous generation's pointer is not cleared -/")
+		w.Line("def reloadSharesLimiter : Nat := %d", shares)
+		w.Line("def reloadClearsPrev : Nat := %d", nils)
 		return nil
 	}})
 }
